@@ -1,6 +1,7 @@
 /-
 C20 — Scalar field codecs are exact inverses and follow the SMPP bit and time layouts.
 -/
+import Smpp.Properties.SrcScalar
 import Smpp.Proofs.TimeProofs
 import Smpp.Proofs.SpecLayout
 import Smpp.Generated.PduFacts
